@@ -187,8 +187,9 @@ class C13(TwoSidedFamily):
                "raw/base64 and protobuf encodings are not modelled: both forms must give the same result"]
     assumptions = ["program class of C12 (unary string facts, one-premise rules and checks with scopes); policies "
                    "are allow/deny if name(\"arg\") [trusting ...]",
-                   "after a run stopped by a limit only the restore and the restored snapshot are compared, not a "
-                   "further authorize() (iteration accounting after a failed run is C10's subject)",
+                   "after a run stopped by a limit the model predicts the restore and the restored snapshot only; a "
+                   "further authorize() and the queries are compared between the original and the restored authorizer "
+                   "directly (implementation-only oracle, added after the seeded change C13-4)",
                    "snapshots produced by snapshot() only: hand-made snapshot messages are out of scope",
                    "authorizer-level scopes are not part of AuthorizerPolicies (save() drops them by design) and are "
                    "left out of the save/load comparison"]
